@@ -142,6 +142,12 @@ pub trait Check: Sync {
     fn required_counters(&self, _tier: Tier) -> Vec<String> {
         Vec::new()
     }
+    /// Observations that depend on a POLICY of the library (which header formats it chooses,
+    /// whether it decodes truncated arrays leniently ...): reported when missing, never affect the
+    /// exit code - a correct library with a different policy must not make a check fail.
+    fn soft_counters(&self, _tier: Tier) -> Vec<String> {
+        Vec::new()
+    }
     /// true when the mandatory part enumerates a finite sub-space completely in this tier
     fn exhaustive_part(&self, _tier: Tier) -> Option<String> {
         None
